@@ -83,6 +83,15 @@ def route_worker(rt):
             loads = st.evs('load')
             def ok(s):
                 ch = a[2] if len(a) > 2 else None
+                # the registration asked to vouch must be an enabled one: the path condition implies the Enabled flag of the token being tried
+                from checks.c19 import free_consts
+                en = []
+                for cc in reversed(s.pc):      # the most recent test of an Enabled flag on this path is the one guarding this very token
+                    en = [c for c in free_consts(cc) if str(c).endswith('Enabled') and ('U2fAuthData' in str(c) or 'WebauthnData' in str(c))]
+                    if en: break
+                r_, m_ = ex.model_fresh(s.pc, z3.Not(z3.Or(en + [z3.BoolVal(False)])), 20000)
+                if r_ != 'unsat' and not any(v[0] == rt['path'] + '/disabled-token' for v in out['viol']):
+                    out['viol'].append((rt['path'] + '/disabled-token', 'a U2F assertion is checked against (and can be accepted for) a token that is not enabled', model_dict(m_) if m_ is not None else None))
                 verified(s, am.U2F, loads[-1]['user'] if loads else z3.String('nobody'), challenge=term(ch, 120))
                 return (z3.BitVec(lib.fresh_name(s, 'counter'), 32), nilerr())
             return fork_results(ex, st, ins, [(None, lambda s: (z3.BitVecVal(0, 32), mk_error(s, SV('u2f'), 'u2f'))), (None, ok)])
@@ -245,6 +254,13 @@ def ob_totp_one_time(chk, ir):
         r0, m0 = ex.model_fresh(p1.pc, z3.Not(z3.Or([e['ok'] for e in vals] + [z3.BoolVal(False)])), 30000)
         if r0 != 'unsat':
             if chk.violation('totp-one-time', 'validateUserTOTP/accepts-without-validation', 'validateUserTOTP reports success for a code that the TOTP validation did not accept on that path', model_dict(m0) if m0 is not None else None) == 'new': verdict = 'violated'
+        # ... and the device that vouched is enabled (a disabled device must not authenticate): with one device in the profile, the path
+        # condition of an accepting path must imply that device's Enabled flag
+        from checks.c19 import free_consts
+        en = sorted({c for cc in p1.pc for c in free_consts(cc) if 'TOTPAuthData' in str(c) and str(c).endswith('Enabled')}, key=str)
+        r1, m1 = ex.model_fresh(p1.pc, z3.Not(z3.Or(en + [z3.BoolVal(False)])), 30000)
+        if r1 != 'unsat':
+            if chk.violation('totp-one-time', 'validateUserTOTP/accepts-disabled-device', 'validateUserTOTP reports success although no enabled device of the user validated the code', model_dict(m1) if m1 is not None else None) == 'new': verdict = 'violated'
         from_cache = any(not ex.feasible(p1.pc, z3.Not(e['fromCache'])) for e in p1.evs('load'))
         saved = bool(p1.evs('save'))
         s2 = p1.fork()
@@ -278,6 +294,36 @@ def ob_totp_one_time(chk, ir):
     chk.obligation('totp-one-time: an accepted TOTP code is not accepted a second time', 'two consecutive calls at arbitrary instants, same code, one device', verdict, paths=total, witness=f'{n} double acceptances examined', t=time.time() - t)
 
 
+
+def ob_enabled_credentials(chk, ir):
+    """userProfile.WebAuthnCredentials (what the WebAuthn library is given to verify an assertion against) lists credentials of enabled
+    tokens only: executed from SSA over a profile with 0..1 WebAuthn and 0..1 U2F entries whose Enabled flags are symbolic"""
+    t = time.time(); name = f'(*{M}.userProfile).WebAuthnCredentials'
+    if name not in ir.funcs: chk.obligation('enabled-credentials', '-', 'inconclusive', 'ANCHOR-LOST ' + name); return
+    from symx import store
+    verdict = 'holds'; total = 0; n = 0
+    for nw, nu in ((0, 0), (1, 0), (0, 1), (1, 1)):
+        H = HandlerRun(ir, loop_bound=6, budget_s=60); ex = H.ex; ex.ptr_nilable = False
+        st = State(); prof = Ptr(st.alloc(store.concrete_profile(ex, st, {'WebauthnData': nw, 'U2fAuthData': nu})))
+        paths = ex.run(name, [prof], st); total += len(paths)
+        for p in paths:
+            if p.status in ('unsupported', 'unwind'): chk.absorb(ex, paths); chk.obligation('enabled-credentials', f'{nw}/{nu}', 'inconclusive', str(p.result)); return
+            if p.status != 'returned': continue
+            n += 1
+            res = p.result[0]; k = 0 if isinstance(res, Nil) or res.len in (0, None) and res.obj is None else res.len
+            from checks.c19 import free_consts
+            en = sorted({c for cc in p.pc for c in free_consts(cc) if str(c).endswith('Enabled')}, key=str)
+            # the number of credentials returned = number of entries whose Enabled flag the path took as true
+            cnt = z3.Sum([z3.If(c, 1, 0) for c in en] + [z3.IntVal(0)])
+            r_, m = ex.model_fresh(p.pc, cnt != (k or 0), 20000)
+            if r_ != 'unsat':
+                if chk.violation('enabled-credentials', f'WebAuthnCredentials/{nw} webauthn, {nu} u2f', f'the credential list handed to the WebAuthn verification has {k} entries for a profile whose enabled tokens number differently (a disabled token is offered, or an enabled one dropped)', model_dict(m) if m is not None else None) == 'new': verdict = 'violated'
+        chk.absorb(ex, paths)
+    if n == 0: chk.obligation('enabled-credentials', '-', 'inconclusive', 'vacuous'); return
+    chk.witnesses += n
+    chk.obligation('enabled-credentials: the credentials offered for WebAuthn / U2F verification are exactly those of enabled tokens', 'profiles with 0..1 WebAuthn x 0..1 U2F entries, Enabled symbolic', verdict, paths=total, witness=f'{n} listings', t=time.time() - t)
+
+
 def main(chk):
     ir = chk.load_ir()
     chk.assumptions = ['Contract J for cookies; factor verifiers (VIP, Okta, TOTP validation, U2F/WebAuthn assertion checks, password backend, federated provider) are contracts: a verdict about the user / transaction they are given',
@@ -285,6 +331,7 @@ def main(chk):
     chk.bounds = {'cookies': '1..2', 'steps': 'one step from an arbitrary pre-state', 'users': 'arbitrary (symbolic names)'}
     ob_last_cookie(chk, ir)
     ob_routes(chk, ir)
+    ob_enabled_credentials(chk, ir)
     ob_totp_one_time(chk, ir)
 
 
